@@ -282,7 +282,8 @@ def r13ab_rep_structure(ctx):
                       name, second, first),
                   "%s is not the composition %s(*%s(...)) with the tuple "
                   "passed in order (calls %s)" % (name, second, first,
-                                                  callees), P)
+                                                  callees),
+                  P + ("C02", "C04"))
 
 
 # ------------------------------------------------------------- R08 / R13c
